@@ -120,7 +120,10 @@ def build_cases(ctx, prop):
 
 
 def run(ctx, prop, rule_text):
-    other = "C16" if prop == "C15" else "C15"
+    # core.Rng(seed) only shifts one splitmix stream by `seed` positions, so neighbouring seeds would
+    # generate nearly the same programs; re-seed the run's single PRNG with a mixed value of VERIF_SEED
+    import hashlib
+    ctx.rng = core.Rng(int.from_bytes(hashlib.sha256(b"lint-%d" % ctx.seed).digest()[:8], "big"))
     ctx.trusted += [
         "Lean 4.33 kernel + leanchecker; axioms ⊆ {propext, Classical.choice, Quot.sound}",
         "hand-written model lean/GoldModel/Model/Lint.lean (five analyzers + request), tied to src/analyzers/*, src/analyzers_v2/*_checker.rs and manager/mod.rs by the `lint` correspondence and by the regenerated tables E8_LintConsts / E9_FoldSites (vlib/extractors/lint.py, trusted to transcribe)",
@@ -144,12 +147,22 @@ def run(ctx, prop, rule_text):
     texts = [c["text"] for c in cases] + [t for _, _, t in probes]
     ctx.log("%d generated programs, %d discrepancy probes" % (len(cases), len(probes)))
     ctx.phase("run")
-    toks = ctx.run_harness("toks", ["toks " + esc(t) for t in texts])
+    def again(run, lines):
+        """a shard killed from outside (OOM killer on a shared box) leaves `<no-output …>` lines:
+        run those cases once more, alone; a case that really brings the process down does so again"""
+        out = run(lines)
+        redo = [i for i, o in enumerate(out) if o.startswith("<no-output")]
+        if redo:
+            ctx.log("%d cases without output (process killed); running them again" % len(redo))
+            for i, o in zip(redo, run([lines[i] for i in redo])):
+                out[i] = o
+        return out
+    toks = again(lambda l: ctx.run_harness("toks", l), ["toks " + esc(t) for t in texts])
     tl = [t[len("parse"):] for t in toks]
-    impl = ctx.run_harness("lint", ["lint " + esc(t) for t in texts])
-    impl_tk = ctx.run_harness("linttoks", ["linttoks" + t for t in tl])
-    model = ctx.run_driver(["lint" + t for t in tl])
-    spec = ctx.run_driver(["lintspec" + t for t in tl])
+    impl = again(lambda l: ctx.run_harness("lint", l), ["lint " + esc(t) for t in texts])
+    impl_tk = again(lambda l: ctx.run_harness("linttoks", l), ["linttoks" + t for t in tl])
+    model = again(ctx.run_driver, ["lint" + t for t in tl])
+    spec = again(ctx.run_driver, ["lintspec" + t for t in tl])
     ctx.phase("compare")
     keys = ["lint " + esc(t) for t in texts]
     nontriv = lambda c, a: a.startswith("L=") and not a.startswith("L= ")
